@@ -34,6 +34,8 @@ def work(args):
         ka, kb = PAIRS[(idx * 7 + i) % 25]
         A, B, cls = G.flat_pair(ka, kb)
         out.append((A, B, cls, observe(impl, A, B)))
+        for A2, B2 in interlib.twin_followups(A, B):      # the same call with one operand replaced by a hash twin, right afterwards
+            out.append((A2, B2, cls + '+hash-twin', observe(impl, A2, B2)))
     return out
 
 
@@ -118,6 +120,7 @@ def replay(ctx, case):
     from .. import impl
     c = case['case']
     A, B = gen.from_jsonable(c['a']), gen.from_jsonable(c['b'])
+    interlib.replay_preamble(impl, A, B)
     obs = observe(impl, A, B)
     ml = core.model_lines(['inter %s %s' % (tok(A), tok(B))])[0]
     m = compare.parse_model(ml)
